@@ -269,6 +269,64 @@ def run_errors(ctx, spec):
                     ctx.violate("suppression-changes-errors", "errors / exit status differ with and without suppression: %r" % (outs,), replay)
 
 
+PARSE_PHASE_ERRORS = [("syntax-error-at-end", "struct ErrP { x: int32, x"), ("tag-overflow", "struct ErrQ { tag(5000000000) a: bool? }"),
+                      ("lexer-error", "struct ErrR { a: $ }"), ("preprocessor-error", "#if\nstruct ErrS {}\n#endif"),
+                      ("missing-brace", "struct ErrT { a: bool"), ("bad-literal", "enum ErrU : uint8 { A = 0xZZ }")]
+
+
+def run_parse_errors(ctx, spec):
+    """An error of the *parsing* phase in the same file or in another file: the suppressed lint stays suppressed, the
+    unsuppressed one stays a warning, the error stays an error (library, all diagnostics with their levels)."""
+    _, idx, n = spec
+    cases = []
+    for ti, tpl in enumerate(T):
+        if ti % n != idx:
+            continue
+        for slot in ["file"] + tpl["in"][:2]:
+            for ename, err in PARSE_PHASE_ERRORS:
+                for where in ("same-file", "other-file-after", "other-file-before"):
+                    if slot == "file" and where == "same-file":
+                        # a file that fails to parse has no file attributes (they are attached when its parse completes): the
+                        # statement's "allow attribute on the file" presupposes a file that was parsed
+                        continue
+                    for suppressed in (True, False):
+                        texts = fill(tpl, slot, tpl["lint"]) if suppressed else fill(tpl, None, "")
+                        if where == "same-file":
+                            texts = [texts[0] + err + "\n"] + texts[1:]
+                        elif where == "other-file-after":
+                            texts = texts + ["module ErrMod\n" + err + "\n"]
+                        else:
+                            texts = ["module ErrMod\n" + err + "\n"] + texts
+                        cases.append((tpl, slot, ename, where, suppressed, texts))
+    resps = ctx.worker.batch([{"op": "compile", "files": c_[5], "want": ["diags"]} for c_ in cases])
+    for (tpl, slot, ename, where, suppressed, texts), r in zip(cases, resps):
+        ctx.note_case(("parse-err", tpl["name"], slot, ename, where, suppressed))
+        ctx.stats["parse_error_cases"] += 1
+        replay = {"kind": "library", "call": "compile_from_strings + into_diagnostics", "files": texts, "template": tpl["name"], "slot": slot,
+                  "error": ename, "where": where, "suppressed": suppressed}
+        if "died" in r or r.get("panic"):
+            p = r.get("panic") or {"message": "worker " + r["died"], "location": "?"}
+            ctx.violate(core.panic_signature(p), "crashed: %s" % p, replay)
+            continue
+        errs = [d for d in r["diags"] if d["level"] == "error"]
+        lints = seeded(r["diags"], tpl["lint"])
+        replay["observed"] = [(d["code"], d["level"]) for d in r["diags"]]
+        if not errs:
+            ctx.violate("suppression-silences-error:parse-phase", "the %s error disappeared" % ename, replay)
+            continue
+        if not lints:
+            # lints of the later phases are legitimately not produced once parsing has failed
+            ctx.stats["parse_error_lint_not_produced"] += 1
+            continue
+        ctx.stats["parse_error_lint_judged"] += 1
+        level = lints[0]["level"]
+        if suppressed and level != "allowed":
+            ctx.violate("not-silenced:with-parse-phase-error/" + where, "%s named by an allow attribute (%s) is reported as %s because a %s error exists (%s)"
+                        % (tpl["lint"], slot, level, ename, where), replay)
+        elif not suppressed and level != "warning":
+            ctx.violate("silenced-out-of-scope:with-parse-phase-error/" + where, "unsuppressed %s has level %s" % (tpl["lint"], level), replay)
+
+
 def fill_raw(template, raw):
     """Like fill(), but each slot holds the given raw text."""
     values = {s: "" for s in ["file", "other", "elem", "encl", "encl2", "sib", "sib2", "depdef"]}
@@ -643,13 +701,13 @@ def judge_random(ctx, prog, lints, cmdline, texts, r):
 
 
 def run_shard(ctx, spec):
-    {"templates": run_templates, "random": run_random, "errors-at-element": run_errors_at_element, "errors": run_errors, "request": run_request, "dupfile": run_dupfile}[spec[0]](ctx, spec)
+    {"templates": run_templates, "random": run_random, "errors-at-element": run_errors_at_element, "parse-errors": run_parse_errors, "errors": run_errors, "request": run_request, "dupfile": run_dupfile}[spec[0]](ctx, spec)
 
 
 def plan(tier, seed):
     n = 3000 if tier == "quick" else 60000
     return ([("templates", i, 8) for i in range(8)] + [("errors", i, 8) for i in range(8)] + [("request", i, 8) for i in range(8)] + [("dupfile",)]
-            + [("random", n // 16, i) for i in range(16)] + [("errors-at-element", i, 8) for i in range(8)])
+            + [("random", n // 16, i) for i in range(16)] + [("errors-at-element", i, 8) for i in range(8)] + [("parse-errors", i, 8) for i in range(8)])
 
 
 def main(tier, seed):
@@ -672,7 +730,7 @@ def main(tier, seed):
               "distinct_nontrivial = distinct (template, placement, argument) + distinct random programs" % len(T)),
         required={"template_cases": 2000, "expected_silenced": 1000, "expected_reported": 400, "error_cases": 100, "request_pairs": 50,
                   "duplicate_file_cases": 10,
-                  "errors_at_element_compared": 1000, "random_programs": 2000, "random_lints_judged": 10000, "random_expected_silenced": 3000, "random_expected_reported": 3000},
+                  "errors_at_element_compared": 1000, "parse_error_lint_judged": 500, "random_programs": 2000, "random_lints_judged": 10000, "random_expected_silenced": 3000, "random_expected_reported": 3000},
         assumptions=["which -A spellings are accepted is taken from the command-line parser itself; an accepted value must be effective",
                      "the element a Deprecated lint concerns is the member / alias / interface / enum holding the reference",
                      "DuplicateFile can only be suppressed from the command line (covered by C14's binary family)"],
